@@ -442,7 +442,7 @@ def demag_factors(L):
 
 def demag(ctx):
     rng = ctx.rng
-    cubic = rng.random() >= (0.15 if ctx.thorough else 0.4)
+    cubic = rng.random() >= 0.5
     shape = gen.pick(rng, ["any", "any", "cube", "film", "rod"])
     scale = 10.0 ** rng.uniform(-9, 0)
     if cubic:
